@@ -25,7 +25,7 @@ from ttvc.terms import fresh_int
 LEVEL = 'other'
 TRUSTED = TRUSTED_COMMON
 ASSUMPTIONS = ['bounded: orders 2..3 (quick) / 2..5 (thorough), sizes 2..6, operator ranks 1..3, rhs ranks 1..3, eps in {1e-4,1e-8}, preconditioner in {None,c,r}, max_full in {0,500}, local_solver in {1,2}, with / without x0, constant C = 100',
-               'deductive part: the local operator (_LinearOp) for every preconditioner option, the interface recursions and local products of solvers / _division / _amen at orders 1..3, the argument guards; NOT the sweep itself (rank adaption, residual tests, local solves)',
+               'deductive part: the local operator (_LinearOp) for every preconditioner option, the interface recursions and local products of solvers / _division / _amen at orders 1..3, the argument guards, and the call-site contract local_system.first_step (order 2, with / without guess, direct and iterative branch: the first local system of the real sweep, entered through the public wrapper, is assembled from the current interfaces and the cores of the arguments); NOT the rest of the sweep (rank adaption, residual tests, inexact local solves, the number of sweeps -- open finding KF-nswp-C12)',
                'the opt_einsum fast path of _LinearOp for local problems with more than 1e4..1e5 unknowns is excluded by a size precondition; torch.linalg.inv enters as an opaque tensor']
 EXPLANATION = 'function-against-spec-function obligations (Sigma-term prover) for the building blocks of the AMEn sweep; bounded run-time contracts (icontract) on the real amen_solve for the residual clause; must-raise obligations for the guards'
 
